@@ -20,13 +20,20 @@
   OBLIGATION c13_depth_within
   OBLIGATION c13_depth
   OBLIGATION c13_depth_unrestricted_false
+  OBLIGATION c13_depth_hyp_of_parse
+  OBLIGATION c13_depth_hyp_of_parse_pinned
+  OBLIGATION c13_number
+  OBLIGATION c13_number_any_fuel
+  OBLIGATION c13_number_pinned
+  OBLIGATION c13_number_pinned_vs_spec
   OPEN c13_full
-  OPEN c13_number
 -/
 import AGV.Lemmas.ParseC13
 import AGV.Lemmas.ParseC13Unique
 import AGV.Lemmas.ParseC13Depth
 import AGV.Lemmas.ParseC13Block
+import AGV.Lemmas.ParseC13Number
+import AGV.Lemmas.ParseC13PairsWf
 
 namespace AGV.Props.C13
 open AGV.Model.BuildAst AGV.Core.PAst AGV.Lemmas.ParseC13
@@ -139,13 +146,47 @@ theorem c13_block :
 
 example : specBlock "\n    a\\\"\"\"\n  \n      b\n  ".toList ≠ none := by decide
 
-/-- OPEN.  The (patched) `number` rule accepts exactly the specification's number tokens. -/
-def c13_number : Prop :=
-  ∀ s : List Char,
+/-- The repaired `number` rule (`!(name_start | ASCII_DIGIT | ".")`), run by the pest interpreter
+    over the generated grammar with every repair applied, accepts exactly the specification's
+    number tokens (IntValue / FloatValue, longest match, look-ahead restriction) and leaves the
+    same rest — for every input, at the fuel `parse_query` uses. -/
+theorem c13_number :
+    ∀ s : List Char,
     (match AGV.Model.Peg.eval (grammarFor Defects.none) (AGV.Model.Peg.fuelFor s) {} (.ident "number") 0 s with
      | .ok _ rest _ => some rest
      | _ => none) =
-    (AGV.Spec.Lex.lexNumber s).map (·.2)
+    (AGV.Spec.Lex.lexNumber s).map (·.2) := by
+  intro s
+  rw [← AGV.Lemmas.PegC13.number_patched s (AGV.Model.Peg.fuelFor s)
+    (by unfold AGV.Model.Peg.fuelFor; omega) {} 0]
+  cases AGV.Model.Peg.eval (grammarFor Defects.none) (AGV.Model.Peg.fuelFor s) {} (.ident "number") 0 s <;> rfl
+
+/-- … and at any fuel ≥ length + 20, in any context, at any position (never out of fuel). -/
+theorem c13_number_any_fuel (s : List Char) (f : Nat) (hf : s.length + 20 ≤ f)
+    (c : AGV.Model.Peg.Ctx) (p : Nat) :
+    AGV.Lemmas.PegC13.resRest (AGV.Model.Peg.eval (grammarFor Defects.none) f c (.ident "number") p s) =
+      (AGV.Spec.Lex.lexNumber s).map (·.2) :=
+  AGV.Lemmas.PegC13.number_patched s f hf c p
+
+/-- The pinned `number` rule (`!name_start` only), exactly: it matches the longest
+    `-? (0 | [1-9][0-9]*) (. [0-9]+)? ([eE] [+-]? [0-9]+)?` prefix (`tokenSpec`, PEG-free) and
+    accepts iff the rest does not begin with a letter or `_` (`numberSpec nsSpec`). -/
+theorem c13_number_pinned (s : List Char) (f : Nat) (hf : s.length + 20 ≤ f)
+    (c : AGV.Model.Peg.Ctx) (p : Nat) :
+    AGV.Lemmas.PegC13.resRest (AGV.Model.Peg.eval AGV.Gen.Grammar.grammar f c (.ident "number") p s) =
+      AGV.Lemmas.PegC13.numberSpec AGV.Lemmas.PegC13.nsSpec s :=
+  AGV.Lemmas.PegC13.number_pinned s f hf c p
+
+/-- The specification's number tokens are exactly the pinned rule's matches whose rest does not
+    begin with a Digit or `.` — so the pinned grammar accepts every number token, and the extra
+    inputs it accepts are precisely `01`, `1.`, `1.5.2`, … (a token followed by a Digit or `.`). -/
+theorem c13_number_pinned_vs_spec (s : List Char) :
+    (AGV.Spec.Lex.lexNumber s).map (·.2) =
+      (AGV.Lemmas.PegC13.numberSpec AGV.Lemmas.PegC13.nsSpec s).filter AGV.Lemmas.PegC13.noDigitDot := by
+  rw [← AGV.Lemmas.PegC13.numberSpec_eq_lex, AGV.Lemmas.PegC13.patched_eq_pinned_filter]
+
+example : AGV.Lemmas.PegC13.numberSpec AGV.Lemmas.PegC13.nsSpec "-12.5e+3,x".toList = some ",x".toList := by decide
+example : AGV.Lemmas.PegC13.numberSpec AGV.Lemmas.PegC13.nsSpec "01]".toList = some "1]".toList := by decide
 
 /-- The uniqueness loop of `parse_query` decides exactly the document-level rules (operation
     names unique, a lone anonymous operation, fragment names unique, at least one operation) and
@@ -195,6 +236,22 @@ theorem c13_depth :
       buildSelSet env f lim p = .ok ss) :=
   fun env f lim p ss =>
     ⟨buildSelSet_depth_le env f lim p ss, fun wf lim' => buildSelSet_within_limit env f lim lim' p ss wf⟩
+
+/-- The hypothesis of `c13_depth_within` holds for every pair the interpreter emits from the
+    repaired grammar (any expression, context, fuel, input), hence — `SetsNonEmpty` being
+    hereditary (`SetsNonEmpty.inner`) — for every pair the tree builder descends into. -/
+theorem c13_depth_hyp_of_parse (f : Nat) (c : AGV.Model.Peg.Ctx) (e : AGV.Model.Peg.Expr) (p : Nat)
+    (s : List Char) (p' : Nat) (s' : List Char) (ps : List AGV.Model.Peg.Pair)
+    (h : AGV.Model.Peg.eval (grammarFor Defects.none) f c e p s = .ok p' s' ps) :
+    ∀ q ∈ ps, SetsNonEmpty q :=
+  pairs_wf_none f c e p s p' s' ps h
+
+/-- … and from the pinned grammar. -/
+theorem c13_depth_hyp_of_parse_pinned (f : Nat) (c : AGV.Model.Peg.Ctx) (e : AGV.Model.Peg.Expr) (p : Nat)
+    (s : List Char) (p' : Nat) (s' : List Char) (ps : List AGV.Model.Peg.Pair)
+    (h : AGV.Model.Peg.eval AGV.Gen.Grammar.grammar f c e p s = .ok p' s' ps) :
+    ∀ q ∈ ps, SetsNonEmpty q :=
+  pairs_wf_pinned f c e p s p' s' ps h
 
 /-- The statement without the hypothesis (as it stood under OPEN) … -/
 def c13_depth_unrestricted : Prop :=
